@@ -4,10 +4,15 @@ import (
 	"fmt"
 	"reflect"
 	"strings"
+	"sync/atomic"
 
 	"github.com/antonmedv/expr"
 	"github.com/antonmedv/expr/vm"
 
+	"verif/mc/gen"
+	"verif/mc/henv"
+	"verif/mc/lib"
+	"verif/mc/par"
 	"verif/mc/report"
 	"verif/mc/snap"
 )
@@ -28,8 +33,9 @@ type c07Env struct {
 	A    []int
 }
 
-func (c07Env) Boom(i int) int { panic("boom") }
-func (e c07Env) Total() int   { return e.N*100 + len(e.A) }
+func (c07Env) Boom(i int) int    { panic("boom") }
+func (e c07Env) Total() int      { return e.N*100 + len(e.A) }
+func (e c07Env) Scale(i int) int { return e.N * i }
 
 type c07NamedMap map[string]interface{}
 
@@ -66,6 +72,11 @@ func c07Ops() []c07Op {
 		{name: "mapProgNamedMap", prog: mustC(`N`, expr.Env(me)), env: c07NamedMap{"N": 9}},
 		{name: "mapProgOtherMap", prog: mustC(`N`, expr.Env(me)), env: map[string]interface{}{"N": 4}},
 		{name: "allocThenFail", prog: mustC(`map(1..N, {#})[N + 5]`, expr.Env(c07Env{}), noopt), env: se(3, 1)},
+		{name: "loopCallFails", prog: mustC(`map(A, {Scale(#) % Z})`, expr.Env(c07Env{}), noopt), env: se(5, 0)},
+		{name: "loopCallA", prog: mustC(`map(A, {Scale(#)})`, expr.Env(c07Env{}), noopt), env: se(2, 1)},
+		{name: "loopCallB", prog: mustC(`map(A, {Scale(#)})`, expr.Env(c07Env{}), noopt), env: se(7, 1)},
+		{name: "nestedLoopCallFails", prog: mustC(`map(A, {count(A, {Scale(#) % Z > 0})})`, expr.Env(c07Env{}), noopt), env: se(3, 0)},
+		{name: "nestedLoopCall", prog: mustC(`map(A, {count(A, {Scale(#) > 2})})`, expr.Env(c07Env{}), noopt), env: se(2, 1)},
 		{name: "budget5", budget: 5},
 		{name: "budget10", budget: 10},
 	}
@@ -143,6 +154,103 @@ func c07Names(ops []c07Op, hist []int) string {
 		s = append(s, ops[i].name)
 	}
 	return strings.Join(s, ",")
+}
+
+// c07Wide: every ordered pair (thorough: also triples led by a failing run) over a WIDE alphabet of runs - every
+// expression of the loops, alloc and access slices up to a node budget x its first valuations x {optimized, not} -
+// on one reused VM: the last run must return what a fresh VM returns. Predecessors are the runs that fail or
+// allocate (the ones that can leave something behind) plus every 7th other run.
+type c07WideOp struct {
+	src   string
+	prog  *vm.Program
+	env   func() interface{}
+	fresh c07Res
+	pred  bool
+}
+
+func c07Wide(r *report.Run) (pairs int64, nops int) {
+	maxN := map[string]int{"quick": 3, "thorough": 4}[r.Tier]
+	var ops []*c07WideOp
+	for _, sl := range []*slice{sliceLoops(), sliceAlloc(), sliceAccess()} {
+		for n := 1; n <= maxN; n++ {
+			for _, top := range sl.tops {
+				sp := sl.g.Space(top, n)
+				for i := int64(0); i < sp.Total; i++ {
+					e := sp.At(i)
+					vals := henv.Valuations(gen.Vars(e))
+					if len(vals) > 4 {
+						vals = vals[:4]
+					}
+					names := gen.Names(e)
+					for _, m := range []lib.Mode{{Env: "struct", Opt: false}, {Env: "struct", Opt: true}} {
+						p, err := lib.Compile(e.String(), m)
+						if err != nil {
+							continue
+						}
+						for _, v := range vals {
+							v, m := v, m
+							op := &c07WideOp{src: e.String() + " @ " + v.Describe(), prog: p, env: func() interface{} { return m.RunEnv(henv.Make(v), names) }}
+							ops = append(ops, op)
+						}
+					}
+				}
+			}
+		}
+	}
+	run := func(v *vm.VM, op *c07WideOp) (res c07Res) {
+		defer func() {
+			if p := recover(); p != nil {
+				res = c07Res{failed: true, out: fmt.Sprint("PANIC ", p)}
+			}
+		}()
+		var out interface{}
+		var err error
+		if v == nil {
+			out, err = vm.Run(op.prog, op.env())
+		} else {
+			out, err = v.Run(op.prog, op.env())
+		}
+		if err != nil {
+			return c07Res{failed: true, out: err.Error()}
+		}
+		return c07Res{out: henv.Norm(out)}
+	}
+	for i, op := range ops {
+		op.fresh = run(nil, op)
+		op.pred = op.fresh.failed || strings.Contains(op.src, "..") || strings.Contains(op.src, "[") || strings.Contains(op.src, "map(") || strings.Contains(op.src, "filter(") || i%7 == 0
+	}
+	var preds []*c07WideOp
+	for _, op := range ops {
+		if op.pred {
+			preds = append(preds, op)
+		}
+	}
+	var n int64
+	par.For(len(preds), func(i int) {
+		a := preds[i]
+		for _, b := range ops {
+			v := &vm.VM{}
+			run(v, a)
+			got := run(v, b)
+			atomic.AddInt64(&n, 1)
+			if got != b.fresh {
+				r.Report(report.Violation{Sub: "reuse-wide", Kind: "differs-from-fresh-vm", Witness: a.src + " ; " + b.src, Order: int64(1)<<40 + int64(i),
+					Detail: map[string]interface{}{"first_run": a.src, "second_run": b.src, "reused": fmt.Sprint(got), "fresh": fmt.Sprint(b.fresh)}})
+				return
+			}
+			if r.Tier == "thorough" && a.fresh.failed && i%5 == 0 {
+				// triples: failing run, then b, then b again and the failing run's neighbour
+				got2 := run(v, b)
+				atomic.AddInt64(&n, 1)
+				if got2 != b.fresh {
+					r.Report(report.Violation{Sub: "reuse-wide", Kind: "differs-from-fresh-vm", Witness: a.src + " ; " + b.src + " ; " + b.src, Order: int64(1)<<40 + int64(i),
+						Detail: map[string]interface{}{"reused": fmt.Sprint(got2), "fresh": fmt.Sprint(b.fresh)}})
+					return
+				}
+			}
+		}
+	})
+	return n, len(ops)
 }
 
 func init() { checks["C07"] = c07 }
@@ -227,6 +335,11 @@ func c07(r *report.Run) {
 			break
 		}
 	}
+	vm.MemoryBudget = base
+	widePairs, wideOps := c07Wide(r)
+	r.Set("wide_alphabet_runs", wideOps)
+	r.Set("wide_histories", widePairs)
+	transitions += widePairs
 	r.Set("states", states)
 	r.Set("transitions", transitions)
 	r.Set("traces_validated_against_impl", transitions)
